@@ -139,8 +139,9 @@ func (m *M) check(b, route string, a Args, pre *snapshot, r *world.Result) {
 				}
 			}
 		case "oend":
+			// (the identifier format is restated here on purpose, not taken from the library)
 			if d, ok := m.W.OAuth[a.OCode]; ok && a.OErr == "" && a.State != "" && pre.sess["oauth2_state"] == a.State &&
-				U == authboss.MakeOAuth2PID(a.Prov, d["uid"]) {
+				U == "oauth2;;"+a.Prov+";;"+d["uid"] {
 				lic = "oauth2"
 			}
 		case "totpvalidate":
@@ -363,6 +364,26 @@ func (m *M) check(b, route string, a Args, pre *snapshot, r *world.Result) {
 		m.violate("C10", "wrong-method", "logout reacted to an HTTP method other than the configured one", b)
 	}
 
+	// ---------------- C09: idle expiry (harness' own record of the last activity) ---------------
+	if m.lastAct == nil {
+		m.lastAct = map[string]time.Time{}
+	}
+	if cfg.ExpireMW && oldU != "" && (route == "open") && r.Panic == "" && r.Probe != nil && r.Probe.Ran {
+		if t0, ok := m.lastAct[b]; ok && m.lastActU[b] == oldU && pre.now.Sub(t0) < cfg.ExpireAfter-time.Second && pre.sess["last_action"] != "" {
+			if r.Probe.PID != oldU {
+				m.violate("C09", "early-expiry", fmt.Sprintf("the session was idle for %v (< ExpireAfter %v) but was served as unauthenticated", pre.now.Sub(t0), cfg.ExpireAfter), b)
+			}
+		}
+	}
+	if post.Sess["uid"] != "" && post.Sess["last_action"] != "" {
+		if m.lastActU == nil {
+			m.lastActU = map[string]string{}
+		}
+		m.lastAct[b], m.lastActU[b] = pre.now, post.Sess["uid"]
+	} else {
+		delete(m.lastAct, b)
+	}
+
 	// ---------------- C09: idle expiry ---------------------------------------------------------
 	if cfg.ExpireMW && oldU != "" && pre.sess["last_action"] != "" && (route == "prot" || route == "open") && r.Panic == "" {
 		if st, err := time.Parse(time.RFC3339, pre.sess["last_action"]); err == nil {
@@ -402,7 +423,28 @@ func (m *M) check(b, route string, a Args, pre *snapshot, r *world.Result) {
 		}
 	}
 
-	// ---------------- C14: OAuth2 state is single-use ----------------------------------------------
+	// ---------------- C14 -----------------------------------------------------------------------------
+	if route == "oend" {
+		if newU != "" && newU != oldU && !(a.State != "" && pre.sess["oauth2_state"] == a.State) && !mwAuth {
+			m.violate("C14", "state-mismatch", fmt.Sprintf("a callback whose state %q is not the session's own state %q logged the browser in", a.State, pre.sess["oauth2_state"]), b)
+		}
+		if a.State != "" && pre.sess["oauth2_state"] == a.State && r.Wrote && r.Panic == "" && post.Sess["oauth2_state"] == a.State {
+			m.violate("C14", "state-kept", "the OAuth2 state survived a callback that matched it", b)
+		}
+		if d, ok := m.W.OAuth[a.OCode]; ok && newU != "" && newU != oldU && !mwAuth {
+			pair := a.Prov + "\x00" + d["uid"]
+			if m.pidOwner == nil {
+				m.pidOwner = map[string]string{}
+			}
+			if prev, seen := m.pidOwner[newU]; seen && prev != pair {
+				m.violate("C14", "pid-collision", fmt.Sprintf("two distinct (provider, uid) pairs %q and %q were given the same account identifier %q", prev, pair, newU), b)
+			}
+			m.pidOwner[newU] = pair
+			if a.OErr != "" {
+				m.violate("C14", "error-logs-in", "a provider-reported error still logged the browser in", b)
+			}
+		}
+	}
 	if route == "oend" && newU != "" && newU != oldU && a.State != "" {
 		key := "oauthstate|" + a.State
 		m.used[key]++
